@@ -342,6 +342,9 @@ func malformed() []badReq {
 		h("search-promises:cursor-forged-null", "GET", "/promises?cursor="+forged[t_api.SearchPromisesRequest](nil), ""),
 		h("search-promises:cursor-forged-empty", "GET", "/promises?cursor="+forged(&t_api.SearchPromisesRequest{Id: "", Limit: 0}), ""),
 		h("search-promises:cursor-forged-neg-limit", "GET", "/promises?cursor="+forged(&t_api.SearchPromisesRequest{Id: "p*", Limit: -3, States: []promise.State{promise.Pending}}), ""),
+		h("search-promises:cursor-forged-no-states", "GET", "/promises?cursor="+forged(&t_api.SearchPromisesRequest{Id: "p*", Limit: 5, Tags: map[string]string{}}), ""),
+		h("search-promises:cursor-forged-nil-tags", "GET", "/promises?cursor="+forged(&t_api.SearchPromisesRequest{Id: "p*", Limit: 5, States: []promise.State{promise.Pending}}), ""),
+		h("search-schedules:cursor-forged-nil-tags", "GET", "/schedules?cursor="+forged(&t_api.SearchSchedulesRequest{Id: "s*", Limit: 5}), ""),
 		h("search-schedules:empty-id", "GET", "/schedules?id=&limit=5", ""),
 		h("search-schedules:limit-neg", "GET", "/schedules?id=s*&limit=-1", ""),
 		h("search-schedules:cursor-forged-null", "GET", "/schedules?cursor="+forged[t_api.SearchSchedulesRequest](nil), ""),
@@ -676,6 +679,12 @@ func child(from, to int, factsPath, driverPath string) {
 								problem = fmt.Sprintf("the kernel received a request that cannot even be described (nil payload): %v", p)
 							}
 						}()
+						// the stores assert non-nil tag maps on searches (nil and empty are one value in the canonical form)
+						if (rq.Kind == t_api.SearchPromises && rq.SearchPromises != nil && rq.SearchPromises.Tags == nil) ||
+							(rq.Kind == t_api.SearchSchedules && rq.SearchSchedules != nil && rq.SearchSchedules.Tags == nil) {
+							problem = "the kernel received a search whose tag map is nil (the store asserts it is not)"
+							return
+						}
 						rep, _, err := drv.Call(M{"op": "valid_req", "req": canon.Req(rq)})
 						if err != nil {
 							problem = "harness: " + err.Error()
